@@ -55,8 +55,9 @@ def rewriteLeaf (v : JVal) : JVal :=
 
 /-- `update_conf(def_cfg, user_cfg)`: `d` is the (copied) default dictionary, the second argument
     the items of the user dictionary in order.  A user dictionary met where the default holds a
-    non-dictionary raises `TypeError` on the first item assignment (nothing happens when the user
-    dictionary is empty: the default value is kept). -/
+    non-dictionary raises on its first item (`TypeError` on the item assignment, `AttributeError` on
+    `config.get` when that item is itself a dictionary); nothing happens when the user dictionary is
+    empty: the default value is kept. -/
 def updateConf (d : Dict) : Dict → Except Err Dict
   | [] => .ok d
   | (k, v) :: rest =>
@@ -74,7 +75,8 @@ def updateConf (d : Dict) : Dict → Except Err Dict
       | some other =>
         match sub with
         | [] => updateConf (Dict.setKey d k other) rest
-        | _ :: _ => .error .type
+        | (_, .obj _) :: _ => .error .attr     -- `config.get(…)` on a non-dictionary
+        | _ :: _ => .error .type               -- item assignment on a non-dictionary
     | leaf => updateConf (Dict.setKey d k (rewriteLeaf leaf)) rest
 
 /-! ### Step classes -/
@@ -212,6 +214,14 @@ def stepCallback (o : Oracle) (reg : List KindDesc) (kind : Machine.Kind) (name 
         | .ok out =>
           let m' := { m with pipelineCfg := Dict.setKey m.pipelineCfg name (.obj out), rightDispMap := true }
           if l.dispSource.isStr && r.dispSource.isNull then .error .attr else .ok m'
+      | .filter =>
+        match construct o kd l r cfg with
+        | .error e => .error e
+        | .ok out =>
+          -- `self.margins.add_non_cumulative(step, filter_.margins)`: the bilateral margin is
+          -- `int(3 * sigma_space + 1)`, which raises OverflowError on +inf (margins are C20's subject)
+          if Dict.lookup out "sigma_space" = some (.float .pinf) then .error .other
+          else .ok { m with pipelineCfg := Dict.setKey m.pipelineCfg name (.obj out) }
       | _ =>
         match construct o kd l r cfg with
         | .error e => .error e
